@@ -5,7 +5,7 @@ sys.path.insert(0, os.path.dirname(os.path.abspath(__file__)))
 import build
 r = build.ensure_built(release=True)
 ok = True
-for k in ("translator", "coq", "driver", "harness", "harness_release"):
+for k in ("translator", "coq", "driver", "harness", "harness_prod", "harness_release", "harness_prod_release"):
     st = r.get(k, (False, "not run"))
     print("%-16s %s" % (k, "ok" if st[0] else "FAILED"))
     if not st[0]:
